@@ -49,6 +49,7 @@ def gen_history(rng, case, maxlen):
     N = c["method"]["N"]
     nsteps = rng.randint(2, maxlen)
     npre = rng.choice([0, 1, 2, nsteps - 1, nsteps - 1])      # often the last operations: no later edit re-transcribes
+    ncat = rng.choice([0, 1, nsteps - 1, nsteps])
     for step in range(nsteps):
         r = rng.random()
         gvs0 = [o_ for o_ in c10.objects(c) if o_["g"] == "GV" and o_["len"] == 1]
@@ -83,8 +84,10 @@ def gen_history(rng, case, maxlen):
             # 'sol_sample': a query on the solution object of an earlier solve (not an operation on the OCP: the
             # next solve must honour the edits made since, whether or not the old solution can still be read)
             ops.append([rng.choice(["sample", "value", "jacobian", "solve", "sample", "solve", "sol_sample", "sol_sample"])])
-        elif r < 0.30 and len(global_param_decls(c)) >= 2:
+        elif (r < 0.30 or step == ncat) and len(global_param_decls(c)) >= 2:
             # two global parameters set through one concatenated symbol
+            if step == ncat:
+                ops.append([rng.choice(["sample", "solve", "value"])])      # given to the transcribed OCP ...
             gd = global_param_decls(c)
             i, j = rng.sample(range(len(gd)), 2)
             vals = [jq(dyadic(rng, -2, 2, 2)) for _ in range(gd[i][1] + gd[j][1])]
@@ -98,6 +101,12 @@ def gen_history(rng, case, maxlen):
                     c["param_values"]["p"][slot + q] = vals[off + q]
                 off += n
             ops.append(["set_value_cat", i, j, vals])
+            if step == ncat:
+                # ... and followed by an edit that leads to a new transcription: the values must survive it
+                sv = ["ipopt", {"ipopt.print_level": 0, "print_time": False, "ipopt.sb": "yes",
+                               "ipopt.max_iter": rng.choice([1, 2, 3]), "ipopt.tol": rng.choice([1e-6, 1e-4])}]
+                ops.append(["solver", sv])
+                c["solver"] = sv
         elif r < 0.33 and "free" in c.get("T", {}):
             v = jq(rng.choice([1, 2, Fraction(3, 2), Fraction(5, 2)]))
             ops.append(["set_initial_T", v])
